@@ -7,7 +7,7 @@ rep = json.load(open(sys.argv[1]))
 v = rep['violation']
 print('WHAT:', v['what']); print('KEY:', v['key']); print('EXPECTED:', v.get('expected')); print('OBSERVED:', v.get('observed'))
 run = v.get('run') or {}
-print('ARGS:', run.get('args')); print('ENV:', run.get('env'), 'MODE:', run.get('mode'), run.get('pty_size'), 'rc', run.get('rc'))
+print('ARGS:', run.get('args')); print('PARENT:', run.get('parent_argv')); print('ENV:', run.get('env'), 'MODE:', run.get('mode'), run.get('pty_size'), 'rc', run.get('rc'))
 print('STDERR:', run.get('stderr_tail'))
 if run.get('stdin_b64'):
     print('--- stdin'); print(base64.b64decode(run['stdin_b64']).decode('utf-8', 'replace'))
